@@ -413,3 +413,17 @@ package stringlib
 //@   ensures fragOut_si >= si
 //@   ensures fragNext && fragOut_matchCount == matchCount && fragOut_si != si ==> !allowEmpty && fragOut_si == si + 1 && fragOut_allowEmpty   // the only match skipped is an empty one at si right after a non-empty match
 //@   ensures fragNext && fragOut_matchCount == matchCount + 1 && !anchored ==> fragOut_si > si   // a counted match always moves the scan forward
+
+// ---------------------------------------------------------------------------
+// C17: %q of an integer reads back as the same integer
+// ---------------------------------------------------------------------------
+// The decimal numeral 9223372036854775808 denotes a float, so mininteger is
+// never rendered in decimal by quote (it is written in hexadecimal, which wraps).
+//@ func quote
+//@   prop C17
+//@   arith int
+//@   norte
+//@   nocover
+//@   modifies everything()
+//@   exits any
+//@   assert_before_call Itoa: arg0 != -9223372036854775808
